@@ -351,7 +351,7 @@ func runC06(c *Ctx) {
 	r.Rule("R13", "handlers can ask: every event (DISCONNECTED included) is dispatched with no library lock held - the must-lockset at every call of the fan-out function and of a handler-set dispatch is empty (shared with C07.R7), so Connected(), Connect and Close called from a handler return")
 	c.noLocksAtDispatchRule("R13")
 	r.Rule("R12", "Connected() agrees with the events because it IS the flag: every return of Connected() returns the connected flag loaded under a blocking acquisition of the connection mutex - no constant answer (a TryLock that gives up says 'false' while REGISTER or CONNECTED handlers run)")
-	if cf := c.Func(c.Client, "(*Conn).Connected"); r.Anchor("R12", "(*Conn).Connected", cf != nil) {
+	if cf := c.followForward(c.Func(c.Client, "(*Conn).Connected")); r.Anchor("R12", "(*Conn).Connected", cf != nil) {
 		nRet := 0
 		funcInstrs(cf, func(in ssa.Instruction) {
 			rt, isR := in.(*ssa.Return)
@@ -2053,7 +2053,7 @@ func (c *Ctx) ioErrorsEndRule(rule string) {
 			cc := cs.Common()
 			io := false
 			if callee := cc.StaticCallee(); callee != nil && c.InModuleFn(callee) {
-				io = callee != a.Teardown && callee != a.TeardownCore && c.doesSocketIO(callee)
+				io = callee != a.Teardown && callee != a.TeardownCore && !c.isTeardownCall(cs) && c.doesSocketIO(callee)
 			} else {
 				for _, arg := range cc.Args {
 					if c.derivesFromIO(arg) || c.derivesFromField(arg, a.Sock) {
